@@ -74,7 +74,10 @@ def classify(x):
             created = any(e == "p%d:ntf_created" % tid for e in ev) or th[nm].startswith("parked@P:ntf_created") or th[nm].startswith("parked@L:NTF")
             wl = [i for i, e in enumerate(ev) if e == "l%d:NTF" % tid]      # the push happens under this lock
             listed_before_sweep = bool(wl) and (sweep is None or wl[0] < sweep)
-            if created and sweep is not None and not listed_before_sweep:
+            # had the worker already gone past the point where it lists its file (it sent something) when the handler swept?
+            chan = int(nm[1:])
+            sent_before_sweep = sweep is not None and any(e in ("s%d" % chan, "e%d" % chan) for e in ev[:sweep])
+            if created and sweep is not None and not listed_before_sweep and not sent_before_sweep:
                 explained += 1
         feats["signal_position"] = "before-any-tempfile-listed" if not any(e.endswith(":ntf_listed") for e in ev[:si]) else "after-some-tempfile-listed"
         feats["every_leaked_file_was_listed_after_the_handler_sweep_or_never"] = explained >= len(x.tmp_left)
